@@ -35,6 +35,18 @@ CLAIMED = {
    design="5/C08",
    note="Trusted: spec/AutoStream.tla, StripStream.tla, Strip.tla; non-Windows platform (Always = pass-through); environment pinned so that Auto on a non-terminal is Never (the decision itself is C09).",
    technique="TLA+ spec (AutoStream over StripStream) + TLC: op-sequence enumeration replayed into AutoStream, recorded calls validated by TLC"),
+ "C03": dict(
+   level="model_checking",
+   text="Chunk-independence is decided on the design by the strip product automaton (a chunk boundary is allowed between any two bytes, inputs of any length) and by the structure of the judges, which carry their state across calls and never see chunk boundaries. Bound to the code: every enumerated string of length 3 and TLC-simulated random strings of length 9 are run through StripBytes, StripStr (character boundaries), StripStream::write_all for all 2^(n-1) chunkings; each chunked run must satisfy the chunk-independent requirement vector and equal the one-shot result; every SGR input of MC_SgrEnum is run through WinconBytes for every chunking with merged runs compared; long grammar inputs with seeded partitions are validated call by call by Trace_Strip / Trace_StripStream / Trace_Wincon.",
+   design="5/C03",
+   note="Trusted: Strip.tla, WinconExtract.tla, TLC. All chunkings are exhaustive only for short inputs (<= 9..14 bytes); long inputs use seeded partitions (single chunk, all-single-byte, sizes 1..k).",
+   technique="TLA+ spec (Strip product automaton, judges with carried state) + TLC; TLC-generated/simulated inputs replayed under all chunkings; per-call trace validation"),
+ "C07": dict(
+   level="model_checking",
+   text="The extractor is specified as the VtParser specification driving a set-valued SGR semantics (Sgr.tla). TLC checks on the specification that attributes combined in one sequence equal separate sequences, enumerates every sequence of up to 2 (full set) / 3 (reduced set; thorough: full) attribute groups in both spellings with the set of styles allowed for the following text, and these are replayed through WinconBytes under every chunking. Seeded grammar texts (SGR up to 32 parameters, ';' and ':' forms, other CSI/OSC/ESC, UTF-8) with seeded chunkings are recorded and every extract_next call is validated by Trace_Wincon with a judge that carries the parser state and the set of renditions consistent with all observations so far.",
+   design="5/C07",
+   note="Trusted: Sgr.tla lenient reading (codes 5 6 22-29 59 may or may not take effect; selecting an underline kind may replace previously selected kinds), VtParser.tla, TLC. Parameter lists outside the well-formed grammar leave the style unconstrained until the next full reset.",
+   technique="TLA+ spec (WinconExtract = VtParser + Sgr) + TLC: enumerated SGR sequences with allowed-style sets replayed under all chunkings; recorded traces validated by TLC"),
 }
 PENDING_REASON = "check not built yet in this revision of /verif (planned with the TLA+ specification, see DESIGN.md section 5); not claimed until its quick command exists"
 
